@@ -43,6 +43,7 @@ RUNIT = {ord('a'): 'a', ord('b'): 'b', ord('\n'): 'n', 'a': 'a', 'b': 'b',
          '\n': 'n'}
 MARKS = ('!sig', '!brk', '!win', '!seof')
 RE_MAX = 6
+PEER_WIN = 2        # PeerWin of the specification (duplex cases)
 FAST = dict(encryption_algs=['aes128-gcm@openssh.com'],
             compression_algs=['none'])
 
@@ -288,7 +289,11 @@ class Harness:
         self.conns[key] = (srv, conn)
         return conn
 
-    def client_reader_conn(self):
+    def client_reader_conn(self, peer_window=None):
+        if peer_window:
+            # the peer's window for what the reading side SENDS (duplex)
+            return self._conn(('cr', peer_window), encoding=None,
+                              window=peer_window)
         return self._conn(('cr',), encoding=None)
 
     def server_reader_conn(self, window, text):
@@ -342,8 +347,10 @@ class Replay:
     def open(self):
         h = self.h
         enc_ = 'utf-8' if self.text else None
+        self.duplex = any(l[0] in ('lwrite', 'leof', 'popen')
+                          for l in self.hist)
         if self.role == 'client':
-            conn = h.client_reader_conn()
+            conn = h.client_reader_conn(PEER_WIN if self.duplex else None)
             n0 = len(h.emit_sessions)
 
             async def op():
@@ -358,14 +365,19 @@ class Replay:
                 raise RuntimeError('server session not created')
             self.emitter = h.emit_sessions.pop()
             self.echan = self.emitter.chan
+            if self.duplex:
+                # the peer holds what it is sent until "popen"
+                self.echan.pause_reading()
             if self.api == 'session':
                 stdin, stdout, stderr = res
                 self.proc = None
                 self.rchan = stdin.channel
+                self.stdin_writer = stdin
                 self.readers = {'out': stdout, 'err': stderr}
             else:
                 self.proc = res
                 self.rchan = res.channel
+                self.stdin_writer = res.stdin
                 self.readers = {'out': res.stdout, 'err': res.stderr}
         else:
             conn = h.server_reader_conn(self.W, self.text)
@@ -662,6 +674,17 @@ class Replay:
                 self.start_call(lab[1], lab[2], lab[3], lab[4])
                 self.compare(step, lab, self.run(), lab[5],
                              lab[6] if len(lab) > 6 else None)
+            elif k in ('lwrite', 'leof', 'popen'):
+                # the reading side's own sending (full duplex)
+                wr = self.stdin_writer
+                if k == 'lwrite':
+                    wr.write(enc(['a'] * lab[1], self.text))
+                elif k == 'leof':
+                    wr.write_eof()
+                else:
+                    self.echan.resume_reading()
+                self.compare(step, lab, self.run(), [],
+                             lab[3] if len(lab) > 3 else None)
             elif k == 'tstep':
                 rec = self.targets[lab[1]][-1]
                 if not rec['slow'].release():
@@ -1622,3 +1645,248 @@ def _first_diff(a, b):
         if x != y:
             return i
     return min(len(a), len(b))
+
+
+# ---------------------------------------------------------------------------
+# Full duplex, end to end: the local side queues input (and its EOF) behind
+# the peer's small window while a cat-like peer answers every chunk as it
+# arrives.  Whatever the local sending state (nothing sent, data queued
+# beyond the window, EOF queued behind data, EOF sent), what read*() /
+# communicate() / wait() / run() return is exactly what the peer wrote.
+
+def _cat_conn(h, swin):
+    async def handler(process):
+        # cat: stdout gets a copy, stderr one 'e' per chunk
+        wrote = h.cat_wrote = [b'', 0]
+        try:
+            while True:
+                data = await process.stdin.read(2)
+                if not data:
+                    break
+                process.stdout.write(data)
+                process.stderr.write(b'e')
+                wrote[0] += data
+                wrote[1] += 1
+        except Exception:               # pylint: disable=broad-except
+            pass
+        process.exit(len(process.command) % 5)
+    return h._conn(('cat', swin), process_factory=handler, encoding=None,
+                   window=swin)
+
+
+def duplex_scenarios(tier):
+    out = []
+    sizes = [0, 1, 2, 3, 4, 7, 16] if tier == 'quick' else \
+        [0, 1, 2, 3, 4, 5, 7, 9, 16, 33, 100]
+    for swin in (1, 2, 3, 64):
+        for cwin in (1, 3, None):
+            for size in sizes:
+                for form in ('run_input', 'communicate', 'stdin_file',
+                             'write_then_read', 'read_lines'):
+                    if size == 0 and form in ('run_input', 'communicate'):
+                        continue        # no input: no EOF is sent either
+                    out.append(dict(swin=swin, cwin=cwin, size=size,
+                                    form=form))
+    return out
+
+
+def replay_duplex(h, sc):
+    conn = _cat_conn(h, sc['swin'])
+    loop = h.loop
+    payload = bytes(97 + (i * 5) % 23 if i % 4 != 3 else 10
+                    for i in range(sc['size']))
+    kw = {} if sc['cwin'] is None else {'window': sc['cwin']}
+    cmd = 'cat' + 'x' * (sc['size'] % 3)
+    want_status = len(cmd) % 5
+    tmp = None
+    form = sc['form']
+
+    async def go():
+        if form == 'run_input':
+            r = await conn.run(cmd, input=payload, encoding=None, **kw)
+            return r.stdout, r.stderr, r.exit_status
+        if form == 'stdin_file':
+            with open(os.path.join(tmp, 'in'), 'wb') as f:
+                f.write(payload)
+            proc = await conn.create_process(
+                cmd, stdin=os.path.join(tmp, 'in'), encoding=None, **kw)
+            # both streams are read while the file is still being fed
+            out, err = await asyncio.gather(proc.stdout.read(),
+                                            proc.stderr.read())
+            r = await proc.wait()
+            return out + r.stdout, err + r.stderr, r.exit_status
+        proc = await conn.create_process(cmd, encoding=None, **kw)
+        if form == 'communicate':
+            o, e = await proc.communicate(payload)
+            return o, e, proc.exit_status
+        proc.stdin.write(payload)
+        proc.stdin.write_eof()          # EOF queued behind the data
+        if form == 'write_then_read':
+            out, err = await asyncio.gather(proc.stdout.read(),
+                                            proc.stderr.read())
+        else:
+            async def lines():
+                got = b''
+                while True:
+                    line = await proc.stdout.readline()
+                    if not line:
+                        return got
+                    got += line
+            out, err = await asyncio.gather(lines(), proc.stderr.read())
+        r = await proc.wait()
+        return out + r.stdout, err + r.stderr, r.exit_status
+    if form == 'stdin_file':
+        tmp = tempfile.mkdtemp(prefix='c19_duplex_', dir=h.workdir)
+    viol = []
+    try:
+        try:
+            out, err, status = loop.run_until_complete(go())
+        except Deadlock:
+            return [('hung-duplex', form,
+                     f'{form} never returned ({sc})')]
+        loop.run_until_idle()
+        wrote = getattr(h, 'cat_wrote', [b'', 0])
+        nchunks = wrote[1]
+        if wrote[0] != payload:
+            viol.append(('stdin-copy', form,
+                         f'{form}: the peer received {len(wrote[0])} of '
+                         f'{len(payload)} input bytes'))
+        if out != wrote[0] or err != b'e' * nchunks:
+            viol.append(('duplex-output', form,
+                         f'{form}: the peer wrote {len(wrote[0])} bytes to '
+                         f'stdout and {nchunks} to stderr, the application '
+                         f'got {len(out)} (first difference at '
+                         f'{_first_diff(out, wrote[0])}) and {len(err)}, '
+                         f'exit status {status}'))
+        elif status != want_status:
+            viol.append(('exit-report', form,
+                         f'{form}: exit status {status}, peer sent '
+                         f'{want_status}'))
+    finally:
+        if tmp:
+            shutil.rmtree(tmp, ignore_errors=True)
+    return viol
+
+
+# ---------------------------------------------------------------------------
+# Exported for checks/c08.py (flow control seen from a stream reader): a
+# stream-session reader that keeps reading - readline(), readuntil(), "async
+# for" - over newline-free runs longer than the receive window gets every
+# byte the peer wrote, in order, and the channel is resumed whenever the
+# buffer drains (the peer's send buffer empties, nothing hangs).
+
+def stream_reader_flow(ctx, quick=True, harness=None):
+    """Runs the scenarios and reports through ctx.violation / ctx.count.
+    Returns the number of scenarios executed."""
+    h = harness or Harness()
+    loop = h.loop
+    n = 0
+    try:
+        conn = h.client_reader_conn()
+        for win in (1, 64, 1000):
+            runs = [win * 3 + 5, win, win + 1, 2 * win + 1] if quick else \
+                [win * 3 + 5, win - 1 or 1, win, win + 1, 2 * win,
+                 2 * win + 1, 5 * win + 3]
+            for run in runs:
+                if run > 6000:
+                    continue
+                payload = (b'x' * run + b'\n' + b'tail\n' +
+                           b'y' * (run // 2 + 1) + b'\n' + b'z' * run)
+                for method in ('readline', 'readuntil', 'aiter'):
+                    for chunk in (0, 1 if run <= 80 else 7, win):
+                        n += 1
+                        sig = {'module': 'StreamFlow', 'window': win,
+                               'method': method}
+                        res = _reader_flow_case(h, conn, win, payload,
+                                                method, chunk)
+                        ctx.count(f'flow:{win}:{run}:{method}:{chunk}')
+                        for clause, detail in res:
+                            ctx.violation(
+                                dict(sig, clause=clause),
+                                f'window {win}, {method}, peer writes in '
+                                f'chunks of {chunk or "all"}, run of {run} '
+                                f'bytes without newline: {detail}',
+                                replay={'kind': 'flow', 'window': win,
+                                        'run': run, 'method': method,
+                                        'chunk': chunk})
+    finally:
+        if harness is None:
+            h.close()
+    return n
+
+
+def _reader_flow_case(h, conn, win, payload, method, chunk):
+    loop = h.loop
+    n0 = len(h.emit_sessions)
+
+    async def op():
+        return await conn.create_process(command='flow', encoding=None,
+                                         window=win)
+    proc = loop.run_until_complete(op())
+    loop.run_until_idle()
+    peer = h.emit_sessions.pop()
+    assert len(h.emit_sessions) == n0
+    pieces = []
+    cap = 4 * len(payload) + 50
+
+    async def reader():
+        rd = proc.stdout
+        if method == 'aiter':
+            async for line in rd:
+                pieces.append(line)
+                if len(pieces) > cap:
+                    break
+            return
+        while len(pieces) <= cap:
+            if method == 'readline':
+                line = await rd.readline()
+            else:
+                try:
+                    line = await rd.readuntil(b'\n')
+                except asyncio.IncompleteReadError as exc:
+                    line = exc.partial
+            if not line and rd.at_eof():
+                return
+            pieces.append(line)
+    task = loop.create_task(reader())
+    loop.run_until_idle()
+    # the peer writes (its channel queues what the window does not allow)
+    if chunk:
+        for i in range(0, len(payload), chunk):
+            peer.chan.write(payload[i:i + chunk])
+            loop.run_until_idle()
+    else:
+        peer.chan.write(payload)
+        loop.run_until_idle()
+    stuck = peer.chan.get_write_buffer_size()
+    peer.chan.write_eof()
+    loop.run_until_idle()
+    viol = []
+    got = b''.join(pieces)
+    if not task.done():
+        viol.append(('reader-hung',
+                     f'the reader is still waiting after the peer sent '
+                     f'everything and EOF; it got {len(got)} of '
+                     f'{len(payload)} bytes, {stuck} bytes are stuck in the '
+                     f'peer\'s send buffer (channel not resumed)'))
+        task.cancel()
+    elif task.exception() is not None:
+        viol.append(('reader-failed', repr(task.exception())[:160]))
+    elif len(pieces) > cap:
+        viol.append(('reader-spins', f'more than {cap} results, '
+                     f'{pieces.count(b"")} of them empty'))
+    if task.done() and got != payload:
+        viol.append(('bytes-lost',
+                     f'the reader got {len(got)} of {len(payload)} bytes '
+                     f'(first difference at {_first_diff(got, payload)})'))
+    if stuck and task.done():
+        viol.append(('not-resumed',
+                     f'{stuck} bytes were still stuck in the peer\'s send '
+                     f'buffer although the reader kept reading'))
+    try:
+        proc.close()
+        peer.chan.close()
+        loop.run_until_idle()
+    except Exception:                   # pylint: disable=broad-except
+        pass
+    return viol
